@@ -10,7 +10,7 @@ from the repeat-offset history the dictionary installs.
 
 The match finders stay an ORACLE (a parse per block, see Model/BlockEnc.lean); with a dictionary their matches may reach into the
 dictionary content, and the first sequences may use the dictionary's repeat offsets.  The dictionary's entropy TABLES are not used
-by this writer: it emits `set_basic` / `set_rle` / `set_compressed` tables, `set_repeat` only of a table an earlier block of the SAME
+by `serializeFrameFrom` / `serializeFrameDict` (`serializeFrameDictTables` at the end of this file does offer them): it emits `set_basic` / `set_rle` / `set_compressed` tables, `set_repeat` only of a table an earlier block of the SAME
 frame used (`serializeBlocks2` starts from `prev = none`), and fresh Huffman trees only (the scope of Model/BlockEnc.lean), never
 treeless literals, so nothing but the repeat offsets and the content of the dictionary matters for the bytes.
 `Lemmas/DictRT.lean` proves that `Frame.decompressAll` with the same dictionary (as loaded by `Dict.loadD`) maps these frames back to
@@ -34,5 +34,52 @@ def dictRep (D : Frame.Dict) : Rep.R := ⟨D.ent.rep[0]!, D.ent.rep[1]!, D.ent.r
 `D` loaded (`a.dictID` is what ZSTD_writeFrameHeader gets: `D.id`, or anything under `a.noDictID`) -/
 def serializeFrameDict (D : Frame.Dict) (a : HeaderW.HArgs) (blocks : List BlockChoice2) (x : ByteArray) : ByteArray :=
   serializeFrameFrom (dictRep D) a blocks x
+
+/-! ### the dictionary's entropy TABLES offered to the first block(s) (ZSTD_loadCEntropy)
+
+The definitions above are unchanged (and so are the theorems about them).  The writer below additionally starts from the ENTROPY state a
+formatted dictionary installs in `cctx->blockState.prevCBlock->entropy` (ZSTD_loadCEntropy, zstd_compress.c):
+
+  `HUF_readCTable((HUF_CElt*)bs->entropy.huf.CTable, &maxSymbolValue, dictPtr, ..)`, `bs->entropy.huf.repeatMode = HUF_repeat_check`
+       (`HUF_repeat_valid` when all 256 symbols have a weight): ZSTD_compressLiterals may emit TREELESS literals (`hType = set_repeat`) in the
+       first block, after HUF_validateCTable found a code for every literal
+  `FSE_readNCount(offcodeNCount, ..)`, `FSE_buildCTable_wksp(bs->entropy.fse.offcodeCTable, offcodeNCount, MaxOff, offcodeLog, ..)`, the same
+       for matchlength and litlength; `*_repeatMode = ZSTD_dictNCountRepeat(..)` (`FSE_repeat_check` / `FSE_repeat_valid`):
+       ZSTD_selectEncodingType may answer `set_repeat` for the first block with sequences, the table being the one built from the
+       dictionary's normalised counts
+
+i.e. the previous decisions are "three described tables with the dictionary's counts" and "the Huffman table with the dictionary's
+weights".  `Lemmas/DictTablesRT.lean` proves that the decoder-side loader (`Dict.loadD`, ZSTD_loadDEntropy: `litEntropy = fseEntropy = 1`)
+installs exactly the decoding tables of these decisions, and the round trip of the frames written from them. -/
+
+/-- `serializeFrameFrom` with the block loop started from previous sequence-table decisions `prev0` and a previous Huffman table `hp0`
+(`prevCBlock->entropy.fse` / `.huf` as ZSTD_compressBegin_internal leaves them).  `serializeFrameFrom rep0` is the instance `none`, `none`. -/
+def serializeFrameFromT (rep0 : Rep.R) (prev0 : Option Tables) (hp0 : Option HufTab) (a : HeaderW.HArgs) (blocks : List BlockChoice2)
+    (x : ByteArray) : ByteArray :=
+  ofList (HeaderW.writeHeader a) ++ (serializeBlocks2 x blocks 0 rep0 prev0 hp0 ++ epilogue a blocks.isEmpty x)
+
+/-- the sequence-table decisions a formatted dictionary stands for (ZSTD_loadCEntropy: `FSE_buildCTable_wksp` of the counts FSE_readNCount
+returned, for litlength / offcode / matchlength) -/
+def dictTables (p : Dict.Parsed) : Tables :=
+  { ll := .fse p.llN.norm p.llN.tableLog, of := .fse p.ofN.norm p.ofN.tableLog, ml := .fse p.mlN.norm p.mlN.tableLog }
+
+/-- the Huffman table a formatted dictionary stands for (ZSTD_loadCEntropy: `HUF_readCTable`): the weights HUF_readStats returned
+(implied last weight included) and the table depth -/
+def dictHuf (p : Dict.Parsed) : HufTab := (p.huf.weights, p.huf.tableLog)
+
+/-- the entropy start state of the compressor for the dictionary bytes `d` (ZSTD_compress_insertDictionary): the dictionary's tables for a
+formatted dictionary (ZSTD_loadZstdDictionary / ZSTD_loadCEntropy), nothing for raw content (ZSTD_reset_compressedBlockState:
+`repeatMode = FSE_repeat_none` / `HUF_repeat_none`) or a refused dictionary -/
+def dictStart (d : Bytes) : Option Tables × Option HufTab :=
+  match Dict.classify d with
+  | .full p => (some (dictTables p), some (dictHuf p))
+  | _ => (none, none)
+
+/-- ZSTD_compress_usingDict / ZSTD_compress_usingCDict, serializer part, with the dictionary's entropy tables on offer: the frame for block
+decisions `blocks` with the dictionary bytes `d` loaded (`D` = what the decoder-side loader makes of `d`; only its repeat offsets are looked
+at, as in `serializeFrameDict`).  The first block with sequences may say `set_repeat` (the dictionary's table), the first block with
+literals may be treeless (the dictionary's Huffman table). -/
+def serializeFrameDictTables (d : Bytes) (D : Frame.Dict) (a : HeaderW.HArgs) (blocks : List BlockChoice2) (x : ByteArray) : ByteArray :=
+  serializeFrameFromT (dictRep D) (dictStart d).1 (dictStart d).2 a blocks x
 
 end ZstdVerif.DictEnc
